@@ -88,6 +88,8 @@ type Model struct {
 	stepCap  int
 	discard  string // non-empty: the world leaves the predictable fragment (formatting, divergence)
 	faulted  bool   // a script-level fault has been predicted; flow is no longer predicted
+	curStmt  *Stmt  // the statement being executed (the one a fault is charged to)
+	lastFail Resp   // what fail() answered last
 	// set when the last waiting response was for a handler that completes on
 	// its own goroutine without a release (the executor is lenient there)
 	asyncImmediate bool
@@ -338,6 +340,17 @@ func (m *Model) evalCall(e *Expr, asValue bool) (Val, *mErr) {
 			return Val{}, &mErr{what: "function without a result used as a value"}
 		}
 		return Val{}, nil
+	case "pw":
+		// a host function that writes a number variable through the storer while the script runs
+		if err := want("sn"); err != nil {
+			return Val{}, err
+		}
+		logCall()
+		if asValue {
+			return Val{}, &mErr{what: "function without a result used as a value"}
+		}
+		m.store[args[0].S] = numV(args[1].N)
+		return Val{}, nil
 	case "pfail":
 		if err := want("n"); err != nil {
 			return Val{}, err
@@ -442,9 +455,23 @@ func markupSensitive(s string) bool {
 func (m *Model) fail(e *mErr) Resp {
 	m.faulted = true
 	if e.any {
-		return Resp{Kind: rAny, Err: e.what}
+		m.lastFail = Resp{Kind: rAny, Err: e.what}
+	} else {
+		m.lastFail = Resp{Kind: rError, Err: e.what}
 	}
-	return Resp{Kind: rError, Err: e.what}
+	return m.lastFail
+}
+
+// ContinueAfterFault: a statement that failed with a definite error has been consumed and changed
+// nothing; the dialogue goes on with the statement after it ("after an error the runner remains
+// usable"). Not for option groups (what a choice means after a group that failed to show is not
+// stated anywhere) and not where the outcome of the fault itself is open.
+func (m *Model) ContinueAfterFault() bool {
+	if !m.faulted || m.discard != "" || m.lastFail.Kind != rError || m.curStmt == nil || m.curStmt.K == sOptions || m.choosing != nil {
+		return false
+	}
+	m.faulted = false
+	return true
 }
 
 func (m *Model) execSet(s *Stmt) *mErr {
@@ -590,6 +617,7 @@ func (m *Model) Next(arg int) Resp {
 		}
 		s := f.stmts[f.i]
 		f.i++
+		m.curStmt = s
 		switch s.K {
 		case sLine:
 			text, err := m.renderLine(s.Line)
